@@ -95,6 +95,10 @@ def run(ctx):
         for kind, det in P.check_path_tree_wrappers(random.Random(f"{ctx.seed}:{rep}")):
             ctx.violation(dict(kind=kind, wrapper="path/tree"), f"{kind}: {det}", replay=dict(rep=rep))
         ctx.case(("wrappers", rep), sample=dict(wrappers="BrownianPath,BrownianTree", rep=rep))
+    # ---- traces harvested from the repository's own test-suite (DESIGN 4.2 (ii)) --------------------------
+    if not quick:
+        from harness import harvest_run
+        harvest_run.harvest(ctx, "brownian", ["brownian"])
     ctx.exhaustive = False
 
 
